@@ -2558,7 +2558,12 @@ class Qube(object):
 
         obj = self.clone()
 
-        if Qube.is_one_true(self._mask_):
+        # Nothing to do if this object, and every derivative that is to be
+        # masked with it, is fully masked already
+        if (Qube.is_one_true(self._mask_)
+            and (not recursive
+                 or all(Qube.is_one_true(d._mask_)
+                        for d in self._derivs_.values()))):
             return obj
 
         obj._set_mask_(True)
